@@ -164,6 +164,9 @@ impl Reporter {
     }
     let n = self.viol_count.fetch_add(1, Ordering::SeqCst);
     if n >= self.max_reported {
+      if std::env::var("VERIF_ALL_VIOLATIONS").is_ok() {
+        println!("  more: [{}] {}", signature.unwrap_or("-"), what);
+      }
       return;
     }
     let body = json!({
